@@ -176,6 +176,8 @@ class Interp:
         self.value_only_default = "present"
         self.pure_depth = 0           # >0 while executing code of non-layer classes (entities, attributes, converter)
         self.layer_base = None
+        self.sym = None               # optional sa.symbuf.SymExt: symbolic byte buffers / linear integers
+        self.loop_unroll = 1          # while loops: number of iterations executed (1 = one generic iteration)
 
     # ------------------------------------------------------------------ atoms
     def ask(self, atom):
@@ -267,6 +269,10 @@ class Interp:
     def truth(self, v, text=""):
         v = self.concrete(v)
         k = v[0]
+        if self.sym is not None and self.sym.is_sym(v):
+            t = self.sym.truth(self, v)
+            if t is not None:
+                return t
         if k == "c":
             return bool(v[1])
         if k in ("other", "node", "obj", "cls", "closure", "bound", "ext", "clsmethod"):
@@ -298,9 +304,9 @@ class Interp:
             return False
         if b[0] in ("node", "obj", "ext", "closure", "bound", "cls", "clsmethod") and a[0] == "c":
             return False
-        if a[0] in ("list", "dict") and b[0] == "c" and b[1] is None:
+        if a[0] in ("list", "dict", "bufobj", "lin", "byte") and b[0] == "c" and b[1] is None:
             return False
-        if b[0] in ("list", "dict") and a[0] == "c" and a[1] is None:
+        if b[0] in ("list", "dict", "bufobj", "lin", "byte") and a[0] == "c" and a[1] is None:
             return False
         if a[0] == "node" and b[0] == "node":
             return a[1] is b[1]
@@ -424,18 +430,45 @@ class Interp:
         elif isinstance(s, ast.For):
             self.for_loop(s, env, depth)
         elif isinstance(s, ast.While):
+            if self.sym is not None:
+                # a generic iteration: integer locals the body assigns stand for "whatever earlier iterations left"
+                stored = {x.id for b_ in s.body for x in ast.walk(b_) if isinstance(x, ast.Name) and isinstance(x.ctx, ast.Store)}
+                for nm in sorted(stored):
+                    cur = env.get(nm)
+                    if cur is not None and (cur[0] == "lin" or (cur[0] == "c" and isinstance(cur[1], int) and not isinstance(cur[1], bool))):
+                        sym_name = self.sym.fresh("N_" + nm + "_")
+                        self.sym.havoc[nm] = (sym_name, cur)
+                        env[nm] = ("lin", ((sym_name, 1),))
             if isinstance(s.test, ast.Constant) and s.test.value:
                 t = True
             else:
                 t = self.truth(self.expr(s.test, env, depth), unparse(s.test))
-            if t:
+            rec = {"entered": bool(t), "exit": "not entered", "line": s.lineno}
+            if self.sym is not None:
+                self.sym.loops.append(rec)
+            rounds = 0
+            while t:
+                rounds += 1
                 self.push_loop()
                 try:
                     self.block(s.body, env, depth)
-                except (_Break, _Continue):
-                    pass
+                    rec["exit"] = "fallthrough"
+                except _Break:
+                    rec["exit"] = "break"
+                    break
+                except _Continue:
+                    rec["exit"] = "continue"
+                except (_Raise, _Return):
+                    rec["exit"] = "raise/return"
+                    raise
                 finally:
                     self.pop_loop()
+                if rounds >= self.loop_unroll:
+                    break
+                # further iterations only on request (a rule drives the loop with scripted values)
+                t = True if (isinstance(s.test, ast.Constant) and s.test.value) else self.truth(self.expr(s.test, env, depth), unparse(s.test))
+                if not t:
+                    rec["exit"] = "condition false after %d iteration(s)" % rounds
         elif isinstance(s, ast.Raise):
             exc = self.expr(s.exc, env, depth) if s.exc is not None else env.get("@exc", ("unk", "reraise"))
             raise _Raise(exc, unparse(s))
@@ -475,6 +508,9 @@ class Interp:
             for t in s.targets:
                 if isinstance(t, ast.Subscript):
                     b = self.expr(t.value, env, depth)
+                    if self.sym is not None and b[0] == "bufobj":
+                        self.sym.delete(self, b, t.slice, env, depth)
+                        continue
                     k = self.concrete(self.expr(t.slice, env, depth))
                     if b[0] == "node" and k[0] == "c":
                         b[1].attrs.pop(k[1], None)
@@ -893,6 +929,10 @@ class Interp:
         return ("ext", n, [])
 
     def binop(self, op, l, r, e=None):
+        if self.sym is not None and (self.sym.is_sym(l) or self.sym.is_sym(r) or self.sym.byteish(l) or self.sym.byteish(r)):
+            v = self.sym.binop(self, op, l, r)
+            if v is not None:
+                return v
         if l[0] == "c" and r[0] == "c":
             try:
                 import operator
@@ -916,7 +956,12 @@ class Interp:
         for op, c in zip(e.ops, e.comparators):
             right = self.expr(c, env, depth)
             text = "%s %s %s" % (unparse(e.left), type(op).__name__, unparse(c))
-            if isinstance(op, (ast.Eq, ast.Is)):
+            sr = None
+            if self.sym is not None and (self.sym.is_sym(left) or self.sym.is_sym(right) or self.sym.byteish(left) or self.sym.byteish(right)):
+                sr = self.sym.compare(self, op, left, right, text)
+            if sr is not None:
+                r = sr
+            elif isinstance(op, (ast.Eq, ast.Is)):
                 r = self.equal(left, right, text)
             elif isinstance(op, (ast.NotEq, ast.IsNot)):
                 r = not self.equal(left, right, text)
@@ -1000,6 +1045,8 @@ class Interp:
 
     def subscript(self, e, env, depth):
         b = self.expr(e.value, env, depth)
+        if self.sym is not None and b[0] == "bufobj":
+            return self.sym.subscript(self, b, e, env, depth)
         if isinstance(e.slice, ast.Slice):
             lo = self.expr(e.slice.lower, env, depth) if e.slice.lower is not None else C_NONE
             hi = self.expr(e.slice.upper, env, depth) if e.slice.upper is not None else C_NONE
@@ -1301,6 +1348,8 @@ class Interp:
             return ("bound", b, name)
         if k == "list" and name in ("append", "extend", "index", "pop", "insert", "remove", "sort", "reverse", "count", "copy"):
             return ("bound", b, name)
+        if k == "bufobj":
+            return ("bound", b, name)
         if k in ("ext", "fn", "unk", "unset", "many", "other"):
             return ("fn", "." + name, [b])
         if k == "bound" or k == "closure":
@@ -1437,6 +1486,15 @@ class Interp:
                 names = [x[1] for x in cs]
                 return ("c", type(vc[1]).__name__ in names)
             return ("c", self.free("isinstance(%s)" % unparse(e)))
+        if self.sym is not None and a0 is not None and self.sym.is_sym(a0):
+            if name == "len":
+                ln = self.sym.length(a0)
+                if ln is not None:
+                    return ln
+            if name in ("bytes", "bytearray", "memoryview") and a0[0] == "bufobj" and len(args) == 1:
+                return ("bufobj", a0[1].copy())
+            if name == "int" and len(args) == 1:
+                return self.sym.as_int(a0)
         if name == "issubclass" and len(args) == 2:
             sub, sup = args
             sups = sup[1] if sup[0] == "list" else [sup]
@@ -1620,6 +1678,10 @@ class Interp:
     def method_call(self, recv, name, args, kwargs, env, depth, e):
         recv = self.force(recv, deref=True)
         k = recv[0]
+        if self.sym is not None and k == "bufobj":
+            return self.sym.method(self, recv, name, args, kwargs)
+        if self.sym is not None and k == "lin" and name == "to_bytes":
+            return ("fn", "to_bytes", [recv] + list(args))
         if k == "node":
             return self.node_method(recv, name, args, kwargs, env, depth, e)
         if k == "obj":
